@@ -151,6 +151,8 @@ pub fn generate(tier: Tier, rng: &mut Rng) -> Vec<Case> {
         "max()", "min([])", "max([1, 'a'])", "max(1, 2u, 3.0)", "min(dur0, dur1)", "[1].min()", "max(f0, f0)",
         "1 ? 2 : 3", "'' ? 2 : 3", "f0 ? 1 : 2", "!f0", "-f0", "-1u", "-'a'", "f0 + f0", "@not_strictly_false",
         "int('9223372036854775808')", "uint('-1')", "int(1e19)", "uint(-0.5)", "uint(-0.0)", "int(d0)", "double('1e400')", "string(1.0)", "string(b'\\xff\\xfe')",
+        "timestamp(9223372036854775807)", "timestamp(-9223372036854775807 - 1)", "timestamp(i1)", "i1.timestamp()", "[0, i1].map(x, timestamp(x))", "duration(9223372036854775807)", "timestamp(timestamp('2000-01-01T00:00:00Z'))", "timestamp(1.0e300)", "duration(18446744073709551615u)",
+        "string(b'caf\\xc3')", "string(b'ab\\xe2\\x82')", "b'\\xf0\\x9f\\x98'.string()", "[b'ab\\xe2\\x82'].map(x, string(x))", "string(b'a\\xffb')", "string(b'\\xc3')",
         "matches('a', '(')", "'a'.matches('[')", "timestamp('x')", "duration('x')", "timestamp('9999-12-31T23:59:59Z') + duration('1s')",
     ] {
         let (mut spec, _) = gen_context(rng, true);
